@@ -9,7 +9,11 @@ for d in seeded/$glob/; do
   [ -f "$d/patch.diff" ] || continue
   out=$(tools/mutant.sh "$d/patch.diff" "$id" quick 2>&1); rc=$?
   nv=$(echo "$out" | grep -c '^VIOLATION')
-  if [ $rc -eq 1 ] && [ "$nv" -gt 0 ]; then s=CAUGHT; else s="MISSED(rc=$rc)"; fail=1; fi
+  disp=$(python3 -c "import json,sys; print(json.load(open(sys.argv[1])).get('disposition',''))" "$d/meta.json" 2>/dev/null)
+  if [ "$disp" = "outside-statement" ]; then
+    # filed as NOT breaking the statement as written (see disposition_note in its meta.json): the check must stay silent
+    if [ $rc -eq 0 ]; then s="SILENT(outside-statement, as intended)"; else s="ALARM(rc=$rc, but filed as outside the statement)"; fail=1; fi
+  elif [ $rc -eq 1 ] && [ "$nv" -gt 0 ]; then s=CAUGHT; else s="MISSED(rc=$rc)"; fail=1; fi
   printf '%-10s %s\n' "$n" "$s"
 done
 exit $fail
